@@ -77,6 +77,9 @@ def run(tier, replay=None):
                 r.violation("model:TopNotBeaten", "ESR.tla: the composition of the stage relations does not give optimality: %s" % res["violated"])
             else:
                 raise tlc.TLCError("ESR.tla: the guard defect is not detected by the model (vacuous theorem)")
+    # tables of any size (TLAPS): rows satisfying row_per_unique, minimum_over_variants and non_decreasing have a first row that no variant beats
+    common.prove(r, "RankProofs", tier, "the top row of a table satisfying Rank!Combine is not beaten by any variant (tables of any size)", selftests=[
+        ("RankProofs.tla", "MinOverVariants(rows), NonDecreasing(rows), NEW v", "MinOverVariants(rows), NEW v")])
     s = scratch.make()
     scratch.activate(s)
     plans = [("core_maths", 3, 3, 0), ("core_maths", 4, 2, 2)] if tier == "quick" else \
